@@ -887,6 +887,13 @@ func (x *Exec) builtin(st *State, fr *Frame, bi *ssa.Builtin, cc *ssa.CallCommon
 		case *types.Map:
 			r = x.mapLen(st, a)
 			st.assume(x.idxGe0(r))
+			if x.mode == ModeInt {
+				// a map cannot hold more entries than the address space has bytes (same bound as slices)
+				st.assume(app("<=", r, "281474976710656"))
+				if x.con != nil && len(x.con.AllocProps) > 0 {
+					st.assume(app("<=", r, x.memcap()))
+				}
+			}
 		case *types.Basic:
 			r = x.strLen(a.S)
 		case *types.Chan:
@@ -950,7 +957,11 @@ func (x *Exec) appendOp(st *State, fr *Frame, s, t Val, pos string, k contK) {
 			n, hs, cur := x.memArr(st, et, l)
 			if one {
 				v := sel(sel(cur, t.Ref), t.Off)
-				x.heapSet(st, n, hs, sto(cur, s.Ref, sto(sel(cur, s.Ref), x.idxAdd(s.Off, s.Len), v)))
+				if x.mode == ModeInt {
+					x.heapSet(st, n, hs, sto(cur, s.Ref, app(x.updFun(l.sort), sel(cur, s.Ref), s.Off, s.Len, v)))
+				} else {
+					x.heapSet(st, n, hs, sto(cur, s.Ref, sto(sel(cur, s.Ref), x.idxAdd(s.Off, s.Len), v)))
+				}
 			} else {
 				_, nw := x.heapHavoc(st, n, hs)
 				q := fmt.Sprintf("j!%d", x.nfresh)
@@ -984,13 +995,27 @@ func (x *Exec) appendOp(st *State, fr *Frame, s, t Val, pos string, k contK) {
 		is := x.sorts.Idx()
 		q := fmt.Sprintf("j!%d", x.nfresh)
 		x.nfresh++
-		st2.assume(fmt.Sprintf("(forall ((%s %s)) (=> (and %s %s) (= (select %s %s) (select (select %s %s) %s))))",
-			q, is, x.idxGe0(q), x.idxLt(q, s.Len), fa, q, cur, s.Ref, x.idxAdd(s.Off, q)))
-		if one {
-			st2.assume(eq(sel(fa, s.Len), sel(sel(cur, t.Ref), t.Off)))
+		if x.mode == ModeInt {
+			// slc form: quantifiers triggered on slc terms of the old backing array keep firing for the new one
+			slc := x.slcFun(l.sort)
+			zero := x.idxLit(0)
+			st2.assume(fmt.Sprintf("(forall ((%s %s)) (! (=> (and %s %s) (= (%s %s %s %s) (%s (select %s %s) %s %s))) :pattern ((%s %s %s %s))))",
+				q, is, x.idxGe0(q), x.idxLt(q, s.Len), slc, fa, zero, q, slc, cur, s.Ref, s.Off, q, slc, fa, zero, q))
+			if one {
+				st2.assume(eq(app(slc, fa, zero, s.Len), app(slc, sel(cur, t.Ref), t.Off, zero)))
+			} else {
+				st2.assume(fmt.Sprintf("(forall ((%s %s)) (! (=> (and %s %s) (= (%s %s %s %s) (%s (select %s %s) %s %s))) :pattern ((%s %s %s %s))))",
+					q, is, x.idxLe(s.Len, q), x.idxLt(q, newLen), slc, fa, zero, q, slc, cur, t.Ref, t.Off, x.idxSub(q, s.Len), slc, fa, zero, q))
+			}
 		} else {
 			st2.assume(fmt.Sprintf("(forall ((%s %s)) (=> (and %s %s) (= (select %s %s) (select (select %s %s) %s))))",
-				q, is, x.idxLe(s.Len, q), x.idxLt(q, newLen), fa, q, cur, t.Ref, x.idxAdd(t.Off, x.idxSub(q, s.Len))))
+				q, is, x.idxGe0(q), x.idxLt(q, s.Len), fa, q, cur, s.Ref, x.idxAdd(s.Off, q)))
+			if one {
+				st2.assume(eq(sel(fa, s.Len), sel(sel(cur, t.Ref), t.Off)))
+			} else {
+				st2.assume(fmt.Sprintf("(forall ((%s %s)) (=> (and %s %s) (= (select %s %s) (select (select %s %s) %s))))",
+					q, is, x.idxLe(s.Len, q), x.idxLt(q, newLen), fa, q, cur, t.Ref, x.idxAdd(t.Off, x.idxSub(q, s.Len))))
+			}
 		}
 		x.heapSet(st2, n, hs, sto(cur, ref, fa))
 	}
